@@ -206,6 +206,21 @@ def concat_var_bound_before(case):
     return bad[0]
 
 
+def wrap_operands(rng, c, p=0.5):
+    """same(t) in place of an operand t of a comparison / membership test (t an attribute, index or call expression)"""
+    k = c[0]
+    w = lambda t: ['map', ['p', 0], t] if t[0] == 'map' and t[1][0] != 'p' and rng.random() < p else t
+    if k == 'cmp':
+        return [k, c[1], w(c[2]), w(c[3])] + c[4:]
+    if k in ('in', 'contains'):
+        return [k, w(c[1]), w(c[2])] + c[3:]
+    if k in ('and', 'or'):
+        return [k, wrap_operands(rng, c[1], p), wrap_operands(rng, c[2], p)] + c[3:]
+    if k == 'not':
+        return [k, wrap_operands(rng, c[1], p)] + c[2:]
+    return c
+
+
 def repeated_flat_element(case):
     """some parent of the case has the same element twice in the collection a flatten node of the case unnests"""
     for b in case['binders']:
@@ -341,10 +356,14 @@ class C19(QueryFamily):
             if rng.random() < 0.5:
                 o[5] = False
             o[8] = o[0] >= 2
+        if rng.random() < 0.3 and c['cond'] is not None:
+            # operands routed through a @predicate FUNCTION used as a value (same(v) returns v): falsy results are values too
+            c['cond'] = wrap_operands(rng, c['cond'])
         return c
 
     def stats(self, case, io):
         d = super().stats(case, io)
+        d['operands_through_a_function'] += json.dumps(case['cond']).count('["p", 0]') if case.get('cond') else 0
         falsy = sum(1 for o in case['heap'] for v in o[:6] if not v)
         d['falsy_field_values'] += falsy
         d['selected_expressions'] += sum(1 for t in case['sel'] if t[0] == 'map')
